@@ -117,3 +117,15 @@ func MapKeys[M ~map[K]V, K comparable, V any](site string, m M) []K {
 	}
 	return out
 }
+
+// MapKeysSorted is MapKeys without the simulator-chosen permutation (used for
+// harness code, whose map order must be deterministic but is not a decision).
+func MapKeysSorted[M ~map[K]V, K comparable, V any](site string, m M) []K {
+	s := cur
+	if s == nil || !s.cfg.PermuteMaps {
+		return MapKeys(site, m)
+	}
+	s.cfg.PermuteMaps = false
+	defer func() { s.cfg.PermuteMaps = true }()
+	return MapKeys(site, m)
+}
